@@ -34,9 +34,25 @@ RULE = ('RMCP: every ordering up to length 4 (thorough: 5, then 6 while time rem
         'sessions.  A case is distinct by (transport, configuration, state, requests, scripts); non-trivial = at '
         'least one event.')
 ASSUMPTIONS = [
-    'models of Rmcp._send_and_receive (+ the ipmb.py helpers it calls) and of IpmbDev/Aardvark._receive_raw are '
-    'hand-written (lean/PyIpmi/Model/RmcpLoop.lean, IpmbDevLoop.lean) and tied to the source by this correspondence '
-    'run; loop bounds, sequence rule, Send Message id and slice bounds are regenerated from the source (Gen/Loops04.lean)',
+    'the step functions of the loop models (lean/PyIpmi/Model/RmcpLoop.lean: rmcpRequest/outer/inner/nextQ/nextSock/'
+    'classify; IpmbDevLoop.lean: i2cRequest/i2cAttempts/recvRaw) are hand-written; what they hard-wire is now '
+    'GENERATED as well: harness/translate/loops04.py re-reads Rmcp._send_and_receive, IpmbDev/Aardvark.'
+    '_send_and_receive and ._receive_raw from the working tree on every run and writes them statement by statement '
+    '(tiny loop AST of Model/LoopAst.lean: order and nesting of with/while/try/if, every test, assignment, call with '
+    'arguments, break/continue/raise/return/assert, except clauses; locals by number, so a renamed local is invisible; '
+    'docstrings, comments, exception messages and log texts dropped) to Gen/Loops04.lean; theorems '
+    'source_shape_rmcp/_ipmbdev/_aardvark state that these ARE the functions the models were written from '
+    '(Loops.Shape.*, each statement annotated with the step function that mirrors it) and source_facts reads off the '
+    'generated value that the sequence number is advanced by the first statement only, _q is read in one place and '
+    'never written, one send and one receive per round.  Any statement that moves, appears, disappears or changes '
+    'stops these theorems from building (a semantically neutral rewrite too: then the verdict is '
+    'no-failing-input-found at most)',
+    'what remains by hand: that each annotated step function computes what its Python statements do (CPython '
+    'semantics of the statements, of queue.Queue, socket, os/select/time, pyaardvark and of the ipmb.py helpers '
+    'checksum/encode/rx_filter/decode_bridged_message the RMCP model includes) - tied by this correspondence run '
+    'on the real classes; loop bounds, sequence rule, Send Message id and slice bounds are separate generated '
+    'constants the models take as parameters (gen_loop_shape; a constant that cannot be read keeps the pinned value, '
+    'is counted in Gen.Loops04.notExtracted and breaks gen_loop_shape and the translator tie)',
     'receive events are given: real socket timing, OS buffering and datagram loss are outside the model; wall-clock '
     'time of ipmb-dev/Aardvark is a virtual clock in 1/64 s ticks carried by the events',
     'the RMCP/IPMI-session wrapper is exercised only without a session (authentication none); packing and '
@@ -49,7 +65,8 @@ ASSUMPTIONS = [
     'header fields are in range (netFn < 64, LUN < 4, addresses and command < 256); single-threaded use (C14 '
     'covers sharing)',
 ]
-TRUSTED = ['harness/translate/loops04.py', 'harness/sim/transport04.py']
+TRUSTED = ['harness/translate/loops04.py (syntax-directed Python-AST -> LoopAst printer; constant readers)',
+           'harness/sim/transport04.py']
 
 SIG_ATTR = 'C04:%s:attribution'
 SIG_SEQ = 'C04:%s:seq_distinct'
